@@ -61,6 +61,7 @@ PLAN = {
          ('api_encode','tie_encode','polyseed_encode as translated: poly and str_tmp are wiped'),
          ('locals','tie_locals','the automatic arrays and structs of every translated API function, as found in the current source, are the objects the wipe accounting knows plus the two public salts: a new temporary breaks this'),
          ('locals_accounted','locals_accounted','each of them maps to an object of the mirror (CTieApi.cobj) or is a salt')],
+ 'C19': [('split','tie_str_split','str_split as translated reads plain chars through the signedness parameter; for either setting it computes the mirror split, which does not mention signedness')],
  'C05': [('signatures','tie_ctypes','the C types of the parameters of the translated functions (the coin is `enum polyseed_coin`, an int: every coin below 2048 reaches the xor unchanged), as clang reports them for the current headers')],
  'C18': [('api_create','tie_create','polyseed_create as translated: one allocation, one clock read, one request for 19 random bytes - all through the table - and the secret is those bytes'),
          ('api_keygen','tie_keygen','polyseed_keygen as translated: the key is what the injected KDF wrote'),
